@@ -29,12 +29,26 @@ Fixpoint bflag_of (ds : list dmom_t) (b : blk) : bool :=
   | t :: r => match bflag_in (blocks_of t) b with Some ok => ok | None => bflag_of r b end
   end.
 (* the block is confirmed by a delivered momentum that is on the chain (ApplyBlock refuses it then) *)
+Definition mflag (t : dmom_t) : bool := let '(_, _, _, ok, _) := t in ok.
 Definition committed (ds : list dmom_t) (chain : list smom) (b : blk) : bool :=
-  existsb (fun t => existsb (fun x => blk_eqb (blk_of x) b) (blocks_of t) && existsb (smom_eqb (d_mom (strip t))) chain) ds.
+  existsb (fun t => mflag t (* delivered as produced: its blocks are the ones the momentum on the chain confirms *)
+                    && existsb (fun x => blk_eqb (blk_of x) b) (blocks_of t) && existsb (smom_eqb (d_mom (strip t))) chain) ds.
 
+(* a block can be delivered with more than one momentum (a surplus copy with an earlier one): its flag is that of its place in
+   the delivered momentum the loop is at, i.e. the one sitting on the frontier (else: of its first occurrence) *)
+Fixpoint bflag_at (ds : list dmom_t) (f : smom) (b : blk) : option bool :=
+  match ds with
+  | [] => None
+  | t :: r => if prev_is (d_mom (strip t)) f
+              then match bflag_in (blocks_of t) b with Some ok => Some ok | None => bflag_at r f b end
+              else bflag_at r f b
+  end.
 (* the verification oracles as observed: the generator's flags *)
 Definition tie_bvalid (ds : list dmom_t) (chain : list smom) (_ : list blk) (b : blk) : bool :=
-  bflag_of ds b && negb (committed ds chain b).
+  (match frontier chain with
+   | Some f => match bflag_at ds f b with Some ok => ok | None => bflag_of ds b end
+   | None => bflag_of ds b
+   end) && negb (committed ds chain b).
 Definition tie_mvalid (ds : list dmom_t) (_ : list smom) (d : dmom) : bool := mflag_of ds (d_mom d).
 
 Fixpoint prefixb (a b : list smom) : bool :=
@@ -45,15 +59,22 @@ Fixpoint prefixb (a b : list smom) : bool :=
   end.
 Definition subsetb (a b : list Z) : bool := forallb (fun x => existsb (Z.eqb x) b) a.
 
-Definition ic_in := (list smom_t * list pblk_t * list dmom_t)%type.   (* own chain (suffix), pooled blocks, batch *)
+(* own chain (suffix) and pooled blocks BEFORE any other writer, the batches another writer of the node inserted while the
+   observed call was waiting for the insert lock (a second InsertChain; the own pillar = a valid one-momentum extension
+   whose blocks are pooled), the observed batch *)
+Definition ic_in := (list smom_t * list pblk_t * list (list dmom_t) * list dmom_t)%type.
 (* class, index, frontier hash, frontier height; when own momentums were abandoned: the blocks that were in the
-   pool before the call and still are after it (the model: none survives the rollback itself, DeleteMomentum) *)
+   pool when the lock was taken and still are after the call (the model: none survives the rollback itself, DeleteMomentum) *)
 Definition ic_out := (Z * Z * Z * Z * list Z)%type.
+Definition tie_step (st : nstate) (ds : list dmom_t) : ic_res * nstate :=
+  insert_chain (tie_bvalid ds) (tie_mvalid ds) true true (fst st) (snd st) (map strip ds).
+Definition tie_writer (inter : list (list dmom_t)) (st : nstate) : nstate :=
+  fold_left (fun s b => snd (tie_step s b)) inter st.
 Definition insert_chain_run (i : ic_in) : ic_out :=
-  let '(local, pool, ds) := i in
-  let c := map to_smom local in
-  let pool := map to_blk pool in
-  let '(r, (c', p')) := insert_chain (tie_bvalid ds) (tie_mvalid ds) true true c pool (map strip ds) in
+  let '(local, pool, inter, ds) := i in
+  let '((c, pool), (r, (c', p'))) :=
+    insert_chain_locked (tie_bvalid ds) (tie_mvalid ds) true true (tie_writer inter)
+                        (map to_smom local, map to_blk pool) (map strip ds) in
   let '(cls, idx) := match r with ICOk => (0, 0) | ICErr k _ => (1, k) | ICPanic => (3, 0) end in
   let surv := if prefixb c c' then [] else map b_id (filter (fun b => pooled b pool) p') in
   match frontier c' with
